@@ -344,6 +344,7 @@ class Ctx:
     def case(self, key, nontrivial: bool = True, sample=None):
         """register one generated case; `key` identifies it for distinctness"""
         self.evaluations += 1
+        self.last_sample = sample if sample is not None else repr(key)[:2000]
         if nontrivial:
             self.distinct.add(hashlib.blake2b(repr(key).encode(), digest_size=8).digest())
         if sample is not None and len(self.samples) < 12 and (self.evaluations % 97 == 1 or len(self.samples) < 3):
@@ -424,16 +425,24 @@ def run_check(mod, prop: str, tier: str, seed: int) -> int:
         return 2
     ctx.driver_ok = ctx.build.driver_ok
     # C + D
+    corr_crash = None
     try:
         mod.run(ctx)
         ctx.flush()
     except Exception as e:
-        infra_error = f"harness crashed: {e!r}"
         traceback.print_exc()
+        if isinstance(e, (OSError, MemoryError, subprocess.SubprocessError, TimeoutError)):
+            infra_error = f"harness crashed: {e!r}"
+        else:
+            # the correspondence could not be completed: on the unchanged tree the harness runs to the end for
+            # every seed, so an exception escaping here means the implementation now behaves in a way the
+            # tie does not expect (a value of another type or size, an exception through an unguarded call)
+            corr_crash = {"exception": repr(e)[:500], "traceback": traceback.format_exc()[-3000:],
+                          "last_case": getattr(ctx, "last_sample", None)}
     # E: search when a proof obligation or the correspondence broke and no failing input is known yet
-    broken = (not ctx.build.ok) or bool(ctx.mismatches)
+    broken = (not ctx.build.ok) or bool(ctx.mismatches) or corr_crash is not None
     new_fail = [f for f in ctx.failures if f.signature not in known_sigs]
-    if broken and not new_fail and infra_error is None and hasattr(mod, "search"):
+    if broken and not new_fail and infra_error is None and corr_crash is None and hasattr(mod, "search"):
         try:
             mod.search(ctx)
             ctx.flush()
@@ -459,7 +468,13 @@ def run_check(mod, prop: str, tier: str, seed: int) -> int:
         print(f"VIOLATION property={prop} replay={rp}")
         violations += 1
     if not by_sig:
-        if not ctx.build.ok:
+        if corr_crash is not None:
+            rp = write_replay(prop, {"property": prop, "kind_of_replay": "correspondence-crash", "kind": "correspondence-crash",
+                                     **corr_crash, "seed": seed,
+                                     "note": "the correspondence check harness/props/%s.py could not be completed against this tree: an exception escaped from the tie itself (see traceback); the model is no longer shown to describe this code. No failing input had been found when it stopped" % prop})
+            print(f"VIOLATION property={prop} replay={rp} no-failing-input-found")
+            violations += 1
+        elif not ctx.build.ok:
             rp = write_replay(prop, {"property": prop, "kind_of_replay": "broken-obligation", "kind": "broken-obligation",
                                      "obligations": [list(b) for b in ctx.build.bad], "log_tail": ctx.build.log[-3000:],
                                      "seed": seed, "note": "a proof obligation of the model no longer checks against the constants/tables regenerated from /repo; the failing-input search on the implementation found no counterexample"})
